@@ -66,6 +66,47 @@ CLAIMED["C27"] = dict(
     note="Trusted: Coq kernel; translator py/C27_t1.py (whitelisted callees assumed read-only); channels outside the heap model (Form caches, Expr._hash, third-party objects, re-initialisation through __new__/__init__) are monitored only. 1 known finding (abs-of-abs-reinit).",
     design="0.1/C27")
 
+CLAIMED["C08"] = dict(
+    technique="Coq: hand-proved model theorem (induction on element trees) + traced obligations (ring/field) on the real apply_function_pullbacks output",
+    text="Props/C08_spec.v defines the declared push-forward of every pullback kind (identity, covariant, contravariant, L2, double covariant/contravariant, covariant-contravariant; rank-generic) and of mixed/symmetric compositions, and a value-level model of MixedPullback.apply / SymmetricPullback.apply; C08_mixed_symmetric proves by induction on the element tree, for all trees, reference values and J, K, detJ, that the model equals the concatenation / symmetry-mapped push-forwards. On every run the real apply_function_pullbacks is traced for all 7 kinds x cells (interval, triangle, tetrahedron) x gdim (incl. immersed) x leading rank <= 2 x nested mixed/symmetric trees, and Coq proves for every physical component, for all reference values and all J, K, detJ, that it equals the specification; physical shapes are checked four ways.",
+    note="Trusted: Coq kernel + vm_compute; serializer; the push-forward formulas pf are the specification (definitions); detJ <> 0; symmetric sub-elements of equal physical shape assumed (wf); configurations bounded (depth <= 3, gdim <= 3), the mixed/symmetric model theorem is unbounded.",
+    design="0.1/C08")
+CLAIMED["C17"] = dict(
+    technique="Coq: inductive theorems about a table-parametric model of RestrictionPropagator; table extracted per run (T1), exhaustive terminal-rule correspondence (T3), traced value/once obligations (T2)",
+    text="Props/C17_model.v models the two-level restriction propagation parametrically in the handler table; proved by induction over all expressions of the modelled fragment: the propagated integrand has the same two-sided value under the continuity laws (side-independent terminals, n- = -n+ on affine non-manifold meshes), every side-dependent terminal ends up under exactly one Restricted placed directly on it and side-independent ones under none, and nested / missing restrictions are errors. On every run the handler table is read off the real RestrictionPropagator and Coq checks the table properties the theorems need and instantiates them; every terminal class x current restriction x default mode is compared structurally with the model (~650 cases); ~110 generated interior-facet integrands are traced through the real apply_restrictions and proved value-equal and once-restricted, and the real code must raise on double/missing restrictions.",
+    note="Trusted: Coq kernel; dispatch introspection; continuity laws are hypotheses; composite integrands tied by value/once only; single mesh per integrand. 1 known finding (missing restriction accepted when default restrictions are off).",
+    design="0.1/C17")
+CLAIMED["C05"] = dict(
+    technique="Coq: unbounded soundness theorems for Gallina models of the constructor simplifications (case analysis, induction on fuel) + per-run traced obligations den(result)=den(raw node) on an exhaustive small-scope enumeration of requests executed on the real constructors (T2) + structural model/implementation correspondence (T3)",
+    text="For the modelled constructors (Sum, Product, Division, Power, Abs, Conj, Real, Imag, Conditional, Indexed/IndexSum/ComponentTensor/ListTensor shortcuts incl. the recursive hooks) Coq proves for all operands, valuations and algebras that the simplified node has the shape, free indices and value of the raw node (integer folding exact), with guarded forms and closed refutations for the defective shortcuts. On every run ~2.7k (quick) / 4.7k (thorough) enumerated requests (all multi-indices over 3 index objects on 28 tensors, zeros with free indices, literals, nested list/component tensors, *, [], slices, /, -, .T, **, inner/outer/dot, conditional, math functions, restrictions) are executed on the real constructors; the raw request is built as Gallina text from the serialised operands and Coq proves shape, free indices and den(result) = den(raw) for every component and that the Gallina models reproduce the implementation's output modulo commutative operand order.",
+    note="Trusted: Coq kernel + vm_compute; serializer; raw-node builder; floating-point literal folding validated numerically only; operators *, [], /, unary -, .T and tensor-algebra __new__ are covered per enumerated pattern only (dims <= 3). 5 known findings.",
+    design="0.1/C05")
+CLAIMED["C29"] = dict(
+    technique="Coq hand model of cmp_expr/operand sorting + structural correspondence on generated pairs/triples + direct property oracles",
+    text="Props/C29_model.v models cmp_expr faithfully (typecode, operand count, operands last-first, repr-based and numeric terminal comparators, zip-truncating multi-index comparison) and Sum/Product/Inner operand sorting. Proved for all trees: antisymmetry, reflexivity, cmp = 0 iff equal up to index/label numbers (partial), swap invariance of the sorted constructors, consistency (transitivity) on aligned triples, and consistency of the repaired comparator for all triples; the full transitivity statement is refuted with the cycle A[0,1] > B[0] > C[0,2] > A[0,1]. Every run maps ~1.6k real expression pairs, ~500 triples and ~900 constructor outputs to the model and Coq must reproduce the real cmp_expr and the real a+b, a*b, inner results; the property is also evaluated directly on the real objects.",
+    note="Trusted: Coq kernel; mapping of real expressions to trees (repr mapping round-trip checked, fail closed); sorted_expr on >= 3 operands not modelled. 1 known finding (intransitivity).",
+    design="0.1/C29")
+CLAIMED["C12"] = dict(
+    technique="Coq invariance theorems (monotone renaming) + fresh-process history harness over counter offsets x hash seeds",
+    text="Props/C12_model.v adds renaming of the five global counters, construction scripts (operands sorted at commutative nodes at build time) and canonical renumbering on top of the C29 comparator model. Proved: cmp, build and canonicalisation are invariant under every monotone renaming on trees with no counter inside a repr-ordered terminal (hence the signature, for any hash), and refuted for repr-ordered terminals (Constant counts 1,2 -> 9,10; mesh ids). Every run executes seeded form-building scripts in fresh interpreters with the counters pre-advanced to {0,8,9,98,99,998} and several PYTHONHASHSEED values; signatures must agree across all configurations, and Coq checks that the mapped integrands of two configurations are renamings of each other.",
+    note="Trusted: Coq kernel; the history harness (subprocesses); attribution to the known finding checks the class predicate (two repr-ordered terminals change relative repr order). 1 known finding (repr-ordered terminals embed counters).",
+    design="0.1/C12")
+CLAIMED["C11"] = dict(
+    technique="Coq injectivity theorems over rendered hash-data tokens (SHA-512 and str as Section variables with injectivity hypotheses) + single-point-mutation families on the real signature",
+    text="Props/C11_model.v models the signature data (terminal data, expression hash data, integral/metadata data). Proved: equal forms have equal signature data; with an injective hash, equal signature implies integral-by-integral equal renumbered integrand, domain data, integral type, subdomain id and canonical metadata; canonical metadata is injective on typed metadata trees and refuted for untyped / ndarray metadata. Every run builds families of a base form, rebuilt copies and 30 single-point mutants (literal, index pattern, operand order, conj, element degree, argument number, subdomain id, integral type, metadata value/key/type/array) and requires real signature equality to coincide with the model's meaning equality on all pairs, with the model's terminal data in bijection with the real _ufl_signature_data_.",
+    note="Trusted: Coq kernel; SHA-512/str injectivity are hypotheses; no ast translation (T3 only); base-form-operator data not covered. 2 known findings (untyped metadata, str(ndarray) truncation).",
+    design="0.1/C11")
+CLAIMED["C10"] = dict(
+    technique="Coq: hand models of IndexReplacer/IndexRemover/IndexRelabeller/IndexExpander with substitution, renaming and expansion theorems by induction + traced obligations den(out)=den(in) and model/implementation correspondence on generated expressions",
+    text="Props/C10_*.v model remove_component_tensors (IndexReplacer, faithfully not capture-avoiding), renumber_indices and expand_indices (with the label-keyed variable cache). Proved by induction for all algebras, environments, valuations and valid components: the substitution lemma, value preservation of component-tensor removal under a decidable capture-freeness predicate, of every injective relabelling (no hygiene assumption), and of index expansion; closed refutations with witnesses for the capture, the Zero re-indexing error and the variable cache. Every run executes the three real passes on ~210 (quick) / 1400 (thorough) generated expressions (reused indices, shadowing, nested component tensors, zeros with free indices, variables used twice; half hygienic) and Coq proves den(out) = den(in) for all operand values plus shape/free indices, and that the Gallina model reproduces the output.",
+    note="Trusted: Coq kernel + vm_compute; serializer; the link from the model theorems to /repo is per generated case; compound-algebra nodes and non-literal exponents outside the fragment. 3 known findings.",
+    design="0.1/C10")
+CLAIMED["C09"] = dict(
+    technique="Coq: algebraic lemmas for delta contraction/elimination, sum interchange and power laws (all algebras) + traced obligations on the real cancel_jacobian_products proved by field for all Jacobians under K = pseudo-inverse(J)",
+    text="Props/C09_algebra.v proves for every algebra: K.J contraction = delta under the left-inverse law, delta elimination, sum interchange, pushing factors into sums, natural-power laws, and refutes merging (x^2)^(1/2)*(1/x) into 1. Every run traces the real cancel_jacobian_products on ~165 (quick) / 448 (thorough) expressions (K.J and J.K contractions in all operand orders and nestings, extra factors, traces, chains, reused indices, Identity tensors, transposed contractions that must not cancel, reciprocal products and powers, Piola integrands after pullback and derivative expansion; gdim = tdim and gdim > tdim) and Coq proves den(out) = den(in) for all Jacobians and factor values with K = (pseudo-)inverse(J) and non-degeneracy as hypotheses.",
+    note="Trusted: Coq kernel + vm_compute; serializer; no hand model of the traversal itself (the index substitution part is C10's model); non-integer real exponents validated numerically only. 2 known findings.",
+    design="0.1/C09")
+
 REASON_PENDING = "model not finished in this revision; not claimed rather than claimed with a non-proof check"
 
 
